@@ -35,4 +35,18 @@ PROPS = {
                 "dump followed >= 2 forward requests or >= 1 inverse request on that instance",
         "assumptions": _COMMON_ASSUMPTIONS,
     },
+    "C16": {
+        "families": [("fs", {"quick": 3000, "thorough": 150000}, None)],
+        "wall": {"quick": 200, "thorough": 2400},
+        "rule": "one evaluation = one seeded world (tree of 1-8 files with nesting, spaces, non-ASCII, dot-files, empty and "
+                "pre-existing directories; one netconan run through the CLI, the directory API, the single-file API or the stream "
+                "API; a listing order; buffer/short-read/short-write knobs; 0-3 injected faults); distinct = distinct signature "
+                "(entry point, file count, fault kinds fired, syscall-kind sequence, per-file verdicts); non-trivial = >= 2 files "
+                "and >= 1 fault fired inside a file operation",
+        "assumptions": _COMMON_ASSUMPTIONS + [
+            "SimFS models errno semantics of open/read/write/close/mkdir/scandir; its fault-free behaviour is compared with the "
+            "real file system by `check selftest-simfs`",
+            "an unlistable sub-directory is an observation only (os.walk drops it silently; the property's quantifier does not list it)",
+            "files that failed after processing began are judged against the stream twin fed the lines they had consumed"],
+    },
 }
